@@ -8,6 +8,10 @@
 // every event that reaches the output must encode to a valid JSON document
 // that re-parses (encoding/json), at once and again when a batching output
 // would send it.
+//
+// Further clauses: several processors against one (par.go), chains against a
+// step-by-step reference (chainref.go), node-pool boundaries of the event's
+// JSON tree (pool.go).
 package main
 
 import (
@@ -353,6 +357,7 @@ func sigPlugin(j *job, stderr, at string) string {
 type runner struct {
 	c     *core.Ctx
 	stats *jobStats
+	pool  *poolAgg // node-pool boundary family (pool.go)
 }
 
 func (rn *runner) witness(j *job, extra map[string]any) map[string]any {
@@ -404,6 +409,11 @@ func (rn *runner) handleCrash(j *job, r *core.ChildResult, order []int, start, p
 		return
 	}
 	r2, alone := rn.crashesAlone(j, raw)
+	if alone && poolClassCrash(r2.Stderr) {
+		// the node-pool class (pool.go) has one signature for the whole run, whoever meets it
+		rn.notePoolClass("main clause", j.name+"/"+j.cfg.Label, r2.Stderr, rn.witness(j, map[string]any{"event": evStr(raw)}))
+		return
+	}
 	if alone {
 		k2, m2, a2 := crashClass(r2)
 		if k2 != kind || m2 != msg || a2 != at {
@@ -430,6 +440,10 @@ func (rn *runner) handleCrash(j *job, r *core.ChildResult, order []int, start, p
 	// the chunk that died, not the whole list: earlier lethal events ended earlier chunks
 	in := jj.childIn(order[start : pos+1])
 	r3, _ := runChild(in)
+	if r3.Crashed() && poolClassCrash(r3.Stderr) {
+		rn.notePoolClass("main clause (history)", j.name+"/"+j.cfg.Label, r3.Stderr, rn.witness(j, map[string]any{"last_event": evStr(raw), "sequence_length": pos + 1 - start}))
+		return
+	}
 	if r3.Crashed() {
 		k3, m3, a3 := crashClass(r3)
 		if k3 == kind && m3 == msg && a3 == at {
@@ -807,7 +821,8 @@ func run(c *core.Ctx) {
 	c.Assume("the pipeline's JSON decoder (insane-json) is trusted to hand the action the document the generator wrote: the generator only emits texts accepted by encoding/json.Valid, so an invalid document at the output is never input laxity (C12)")
 	c.Assume("encoding/json (Valid + Decode with UseNumber) is the reference for 'well-formed JSON that re-parses'; it does not require valid UTF-8 inside strings")
 	c.Assume("k8s meta fields (k8s_pod, k8s_namespace, k8s_container, k8s_container_id) come from the file name through the input's meta templates, never from event content: the harness input always supplies them for the k8s multiline action")
-	c.SetRule("cases = events; for every (plugin, configuration class) a fixed directed list (each referenced field x each hostile value class alone on a benign event, every dictionary string, non-object roots) followed by seeded random events biased to the referenced field names and to the plugin's dictionary; an evaluated case is an event that entered the tested action in a real pipeline (or was refused nowhere); non-trivial/distinct = (plugin, configuration class, structural shape of the event = root kind + value class of every referenced field, observed outcome set: output/dropped/held/changed/children). Concurrency clause: the same lists once more per configuration through a one-processor and an eight-processor pipeline (eight sources, one feeder each) in one child; distinct = (plugin, configuration, compared or not, processors overlapped inside the action or not). Chain clause: every ordered pair of the actions that store bytes in event.Buf, every other covered stateless action between a Buf writer and json_encode, k8s-multiline in front of json_encode / flatten, a few triples and seeded chains, each over one shared event list through a 12-event pool, compared per event with the step-by-step evaluation; distinct = (chain, event shape) of events equal to the reference")
+	c.SetRule("cases = events; for every (plugin, configuration class) a fixed directed list (each referenced field x each hostile value class alone on a benign event, every dictionary string, non-object roots) followed by seeded random events biased to the referenced field names and to the plugin's dictionary; an evaluated case is an event that entered the tested action in a real pipeline (or was refused nowhere); non-trivial/distinct = (plugin, configuration class, structural shape of the event = root kind + value class of every referenced field, observed outcome set: output/dropped/held/changed/children). Concurrency clause: the same lists once more per configuration through a one-processor and an eight-processor pipeline (eight sources, one feeder each) in one child; distinct = (plugin, configuration, compared or not, processors overlapped inside the action or not). Chain clause: every ordered pair of the actions that store bytes in event.Buf, every other covered stateless action between a Buf writer and json_encode, k8s-multiline in front of json_encode / flatten, a few triples and seeded chains, each over one shared event list through a 12-event pool, compared per event with the step-by-step evaluation; distinct = (chain, event shape) of events equal to the reference. Node-pool boundary family: pipelines X -> Y (X decodes the text of a field into the event's root: json_decode / decode-json with and without prefix; Y adds a field: add_host, set_time, modify, rename, move, flatten) x start size of a root's node pool (16 as cmd/file.d sets it, 128 library default; one child process per job) x the measured lengths the pool takes when it grows x five tails x every member count within 6 of the one that leaves exactly one free node after the pipeline's decode x twelve texts (scalars, containers, not JSON; as a string and as the member itself), each event on a brand-new pool event of a new pipeline and inside a seeded shuffle with fillers and seeded cases through a 4-event pool; distinct = (start size, X, Y, mode, tail, text, pool length before X, room / one node short / exactly full after X, outcome)")
+	c.Assume("node-pool boundary family: the length of a root's node pool and the number of nodes in use are unexported; the probes read them through a mirror of insane-json's decoder struct that every child verifies at start against Root.PoolSize and three known node counts. An event whose pool is exactly full after X is run through Y only for a few seeded ordinals per job (on the unchanged tree it kills the process: a death costs a child); the others are discarded behind X and counted. A panic 'index out of range' in insane-json decoder.getNode reached through Node.AddField* has one signature for the whole run")
 	c.Assume("concurrency clause: for a plugin whose result does not depend on the clock, on counters shared by streams or on time-outs, the output of an event is a function of the events of its own stream in their order; both phases feed every stream in the same order, so the outputs must be equal as JSON documents (encoding/json with UseNumber; the order of members is not significant: every processor's modify fixes its own order of operations at Start, the syslog / nginx decoders add members in Go map order). Not compared (crash and validity only): set_time, throttle, cardinality, join, join_template, k8s-multiline, parse_es, every hold-capable configuration, modify/trim-filters (its operations read a member another one rewrites)")
 	c.Assume("chain clause: the reference for a chain is the composition of its actions run one at a time, each in its own one-action pipeline on the encoded (deep-copied) output of the previous one; events for which some intermediate document is not valid JSON or is refused by the pipeline's decoder have no reference and are skipped; equality is equality of the decoded documents (encoding/json, UseNumber)")
 	c.Assume("a configuration that the plugin itself refuses (error from SetupActions, Fatal/panic inside Start before the first event) is discarded; hand-written table entries must all be accepted")
@@ -853,7 +868,7 @@ func run(c *core.Ctx) {
 		}
 		return wa > wb
 	})
-	rn := &runner{c: c, stats: &jobStats{observed: map[string]map[string]int64{}}}
+	rn := &runner{c: c, stats: &jobStats{observed: map[string]map[string]int64{}}, pool: newPoolAgg()}
 	workers := runtime.NumCPU()
 	if workers > 16 {
 		workers = 16
@@ -865,6 +880,18 @@ func run(c *core.Ctx) {
 	// the concurrency clause (par.go) and the chain clause (chainref.go) share the workers
 	var parJobs []*parJob
 	var chainJobs []*chainJob
+	var poolJobs []*poolJob
+	if os.Getenv("C13_NO_POOL") == "" {
+		poolJobs = buildPoolJobs(c)
+	}
+	for _, pj := range poolJobs {
+		for _, e := range pj.cases {
+			if !json.Valid(e.Raw) {
+				c.Fatal("generator emitted an invalid text for the pool-boundary family: %s", evStr(e.Raw))
+				return
+			}
+		}
+	}
 	if os.Getenv("C13_NO_PAR") == "" {
 		parJobs = buildParJobs(c)
 		sort.SliceStable(parJobs, func(a, b int) bool { return parJobs[a].normalize && !parJobs[b].normalize })
@@ -939,6 +966,10 @@ func run(c *core.Ctx) {
 			tasks = append(tasks, parTask(pj))
 		}
 	}
+	for _, pj := range poolJobs { // several children each (a death per armed event let through)
+		pj := pj
+		tasks = append(tasks, timed(pj.label(), func() { rn.runPool(pj) }))
+	}
 	for _, j := range jobs {
 		if !(!j.random && slowStart(j.cfg)) {
 			tasks = append(tasks, mainTask(j))
@@ -954,6 +985,16 @@ func run(c *core.Ctx) {
 		tasks = append(tasks, timed("chainref "+cj.label, func() { rn.runChain(cr, cj) }))
 	}
 	core.ParallelFor(len(tasks), workers, func(i int) { tasks[i]() })
+	// the getNode class is reported once per run, whoever saw it
+	rn.poolFinish(len(poolJobs) > 0)
+	if only == "" && len(poolJobs) > 0 {
+		if c.Counter("pool_events_one_node_short_of_the_pool_before_X") == 0 {
+			c.Fatal("pool-boundary family: no event left the pipeline's decoder one node short of its root's pool: the sweep does not reach the boundaries (insane-json's node accounting differs from the generator's?)")
+		}
+		if c.Counter("pool_events_reached_output_valid") == 0 {
+			c.Fatal("pool-boundary family: no event reached the output")
+		}
+	}
 
 	// per plugin: what was observed; a run that never saw an expected behaviour is void
 	perPlugin := map[string]any{}
@@ -991,11 +1032,14 @@ func run(c *core.Ctx) {
 	c.Extra("child_jobs", len(jobs))
 	c.Extra("par_jobs", len(parJobs))
 	c.Extra("chain_jobs", len(chainJobs))
+	c.Extra("pool_boundary_jobs", len(poolJobs))
 }
 
 func main() {
 	registerHead()
 	core.RegisterChild("pipe", childMain)
 	core.RegisterChild("par", parMain)
+	registerPoolProbes()
+	core.RegisterChild("pool", poolMain)
 	core.Main("C13", "exploration", run)
 }
